@@ -41,7 +41,7 @@ def unstem(graph: str, dotted: str) -> str:
 	table = GRAPH_STEM.get(graph, STEM)
 	return {v: k for k, v in table.items()}[dotted]
 
-BODY_CLASS = {1: 1, 2: 2, 3: 1, 4: 4}  # variant 3 = variant 1 with a different layout (same emitted text, other file hash)
+BODY_CLASS = {1: 1, 2: 2, 3: 1, 4: 4, 5: 5}  # variant 3 = variant 1 with a different layout (same emitted text, other file hash)
 
 
 def source_of(graph: str, m: str, v: int) -> str:
@@ -55,6 +55,9 @@ def _source_of(graph: str, m: str, v: int) -> str:
 		# layout-only edit: a blank line before the last statement / definition and one at the end
 		head, sep, last = text.rstrip('\n').rpartition('\n\n') if '\n\n' in text.rstrip('\n') else ('', '', text.rstrip('\n'))
 		return (f'{head}\n\n\n{last}\n\n' if sep else f'\n{last}\n\n')
+	if v == 5:
+		# the module nobody imports becomes blank; the others get a comment
+		return '' if m == {'Chain': 'a', 'Pair': 'b', 'Diamond': 'a', 'Twins': 'a'}[graph] else _source_of(graph, m, 1) + '# end\n'
 	if graph in ('Chain', 'Pair'):
 		if m == 'c':
 			return LEAF[v]
